@@ -51,6 +51,9 @@ func (r *Reader) ReadEntry() (*Entry, error) {
 				}
 				return nil, io.EOF
 			}
+			// A damaged record ends the entry that was being assembled: its
+			// fragments must not be joined with fragments read behind the damage
+			r.fragments = r.fragments[:0]
 			return nil, err
 		}
 
